@@ -15,6 +15,7 @@ from mc.vloop import IdleForever
 
 D = 1.0          # nominal computation duration
 _REAL = {'rcts': asyncio.run_coroutine_threadsafe}
+SLACK = 5.0      # virtual seconds of idle waiting tolerated without any loop death
 KEY = 'K'
 
 
@@ -424,7 +425,9 @@ class Monitor:
                 px_ = [pl for (pt, pl) in proxies.get(c['task'], []) if pt <= t + 1e-9]
                 if mid or (px_ and px_[-1] == ln):
                     deaths.add(ln)
-            allowed = 60.0 * len(deaths)
+            # 'as soon as the computation ends' is judged with slack for an implementation that polls;
+            # the defect class this clause is about costs a whole safety window (60 s)
+            allowed = 60.0 * len(deaths) + SLACK
             c['gap'], c['deaths'] = gap, len(deaths)
             if gap > allowed + 1e-6:
                 self.viol['C06'].append(('bystander_delayed',
